@@ -160,6 +160,55 @@ func factsHashring() {
 	}
 	emitStr("isExactMatcherBody", "pkg/receive/config.go isExactMatcher", exact)
 
+	// ---- C21: getShardSize cases, take, the sub-ring call
+	var cases []string
+	if b := body(fn(f, "shuffleShardHashring", "getShardSize")); b != nil {
+		ast.Inspect(b, func(n ast.Node) bool {
+			if sw, ok := n.(*ast.SwitchStmt); ok && strings.Contains(text(sw.Tag), "TenantMatcherType") {
+				for _, st := range sw.Body.List {
+					if cc, ok := st.(*ast.CaseClause); ok {
+						var es []string
+						for _, e := range cc.List {
+							es = append(es, text(e))
+						}
+						if len(es) == 0 {
+							es = []string{"default"}
+						}
+						cases = append(cases, strings.Join(es, ", "))
+					}
+				}
+				return false
+			}
+			return true
+		})
+	}
+	emitList("shardSizeCases", "pkg/receive/hashring.go getShardSize: the case lists of the switch over the matcher type", cases)
+	gts := fn(f, "shuffleShardHashring", "getTenantShard")
+	var takeSkel []string
+	subRing := "unknown"
+	if b := body(gts); b != nil {
+		ast.Inspect(b, func(n ast.Node) bool {
+			switch x := n.(type) {
+			case *ast.IfStmt:
+				if strings.HasSuffix(text(x.Cond), "ZoneAwarenessDisabled") && len(x.Body.List) == 1 {
+					if as, ok := x.Body.List[0].(*ast.AssignStmt); ok && text(as.Lhs[0]) == "take" {
+						takeSkel = append(takeSkel, "if:"+text(x.Cond), text(as))
+						if eb, ok := x.Else.(*ast.BlockStmt); ok && len(eb.List) == 1 {
+							takeSkel = append(takeSkel, "else", text(eb.List[0]))
+						}
+					}
+				}
+			case *ast.ReturnStmt:
+				if len(x.Results) == 1 && strings.HasPrefix(text(x.Results[0]), "newKetamaHashring(") {
+					subRing = text(x.Results[0])
+				}
+			}
+			return true
+		})
+	}
+	emitList("shardTake", "pkg/receive/hashring.go getTenantShard: how many nodes are taken per zone", takeSkel)
+	emitStr("shardSubRing", "pkg/receive/hashring.go getTenantShard: the sub-ring construction", subRing)
+
 	// ---- C20: what a section hash is computed from
 	hin := "unknown"
 	if b := body(fn(f, "", "newKetamaHashring")); b != nil {
